@@ -637,6 +637,8 @@ func (e *Engine) fail(s *State, kind, msg string) {
 		e.report(s, kind, msg, m, TTrue)
 	} else if r == Unknown {
 		e.addInconclusive(s, "solver unknown on path feasibility at "+e.pos(e.curInstr(s)))
+	} else {
+		panic(abortPath{"infeasible"}) // speculatively executed arm
 	}
 	panic(abortPath{"violation"})
 }
